@@ -64,6 +64,11 @@ func InstallHooks(s *sim.Sim, n *sim.Net) {
 	verifhook.DialFunc = n.Dial
 	verifhook.ListenFunc = n.Listen
 	verifhook.YieldFunc = s.Yield
+	if os.Getenv("VERIF_NOPARK") != "" {
+		// confirmation mode of the driver (after a watchdog with a mutex waiter): no goroutine is ever
+		// parked at a yield point, so a lock that stays taken is held by the system under test alone
+		verifhook.YieldFunc = func(string, uint64) {}
+	}
 	verifhook.ProbeFunc = s.Probe
 	// an existing seam: panics recovered by utils.GoWithRecover (read loops, worker pool hand-offs) are
 	// reported to a registered logger, from the panicking goroutine (its stack still shows the origin)
